@@ -316,6 +316,34 @@ func callInstrs(fn *ssa.Function) []ssa.CallInstruction {
 	return out
 }
 
+// callInstrsDeep lists the call instructions of fn and of the module functions it
+// statically calls (helpers split off the function), up to depth levels down.
+// Anonymous functions created in fn are included.
+func callInstrsDeep(fn *ssa.Function, depth int) []ssa.CallInstruction {
+	var out []ssa.CallInstruction
+	seen := map[*ssa.Function]bool{}
+	var rec func(f *ssa.Function, d int)
+	rec = func(f *ssa.Function, d int) {
+		if f == nil || seen[f] || len(f.Blocks) == 0 {
+			return
+		}
+		seen[f] = true
+		for _, ci := range callInstrs(f) {
+			out = append(out, ci)
+			if d > 0 {
+				if callee := ci.Common().StaticCallee(); callee != nil && inModule(callee) {
+					rec(callee, d-1)
+				}
+			}
+		}
+		for _, af := range f.AnonFuncs {
+			rec(af, d)
+		}
+	}
+	rec(fn, depth)
+	return out
+}
+
 // callsTo lists calls in fn whose canonical callee name is in names.
 func callsTo(fn *ssa.Function, names ...string) []ssa.CallInstruction {
 	set := map[string]bool{}
@@ -1052,6 +1080,50 @@ func (ci *cdInfo) guardOfM(b *ssa.BasicBlock, memo map[*ssa.BasicBlock]*Form, on
 		if iff == nil {
 			continue
 		}
+		// a condition materialised by short-circuit evaluation (`case a && b:`, `x := a || b; if x`): the φ in the
+		// branching block is expanded over its incoming edges, so the guard is the same formula the equivalent
+		// nested-if form would give
+		if phi, isPhi := iff.Cond.(*ssa.Phi); isPhi && phi.Block() == d.b && (phi.Comment == "&&" || phi.Comment == "||") {
+			var ealts []*Form
+			for i, pred := range d.b.Preds {
+				if d.b.Dominates(pred) {
+					continue
+				}
+				var val *Form
+				if cb, isC := constBool(phi.Edges[i]); isC {
+					val = fFalse
+					if cb {
+						val = fTrue
+					}
+				} else {
+					a, neg := condLit(phi.Edges[i])
+					val = fLit(a)
+					if neg {
+						val = fNot(val)
+					}
+				}
+				if d.succ == 1 {
+					val = fNot(val)
+				}
+				edge := fTrue
+				if pif := blockIf(pred); pif != nil {
+					if cb, isC := constBool(pif.Cond); isC {
+						if cb != (pred.Succs[0] == d.b) {
+							edge = fFalse
+						}
+					} else {
+						a, neg := condLit(pif.Cond)
+						edge = fLit(a)
+						if neg != (pred.Succs[1] == d.b && pred.Succs[0] != d.b) {
+							edge = fNot(edge)
+						}
+					}
+				}
+				ealts = append(ealts, fAnd(ci.guardOfM(pred, memo, onstack), edge, val))
+			}
+			alts = append(alts, fOr(ealts...))
+			continue
+		}
 		var lit *Form
 		if cb, isConst := constBool(iff.Cond); isConst {
 			lit = fFalse
@@ -1354,12 +1426,18 @@ func valueOrigins(v ssa.Value) []string {
 				rec(e, d+1)
 			}
 		case *ssa.Extract:
+			if call, ok := x.Tuple.(*ssa.Call); ok && followReturns(call, x.Index, func(r ssa.Value) { rec(r, d+1) }) {
+				return
+			}
 			rec(x.Tuple, d+1)
 		case *ssa.Convert:
 			rec(x.X, d+1)
 		case *ssa.ChangeType:
 			rec(x.X, d+1)
 		case *ssa.Call:
+			if followReturns(x, 0, func(r ssa.Value) { rec(r, d+1) }) {
+				return
+			}
 			n, _ := calleeOf(x)
 			set[n] = true
 		case *ssa.Parameter:
@@ -1477,4 +1555,24 @@ func staticCallSites(fn *ssa.Function) []ssa.CallInstruction {
 		}
 	}
 	return callSiteCache[fn]
+}
+
+// followReturns: when call statically calls a function of the module that has a
+// body, visits result #idx of each of its return statements.
+func followReturns(call *ssa.Call, idx int, visit func(ssa.Value)) bool {
+	callee := call.Common().StaticCallee()
+	if callee == nil || callee.Pkg == nil || len(callee.Blocks) == 0 || !strings.HasPrefix(callee.Pkg.Pkg.Path(), repoModule) {
+		return false
+	}
+	any := false
+	for _, b := range callee.Blocks {
+		if len(b.Instrs) == 0 {
+			continue
+		}
+		if ret, ok := b.Instrs[len(b.Instrs)-1].(*ssa.Return); ok && idx < len(ret.Results) {
+			any = true
+			visit(ret.Results[idx])
+		}
+	}
+	return any
 }
